@@ -25,7 +25,7 @@ CHECKS = {
  'C14': dict(tech='E1: size-window tightness as FP-SMT obligations over all doubles (cvc5/z3), edit-distance window over unbounded integers (z3); E2: z3-decided paths for counts-alone, no-common-token (unconstrained kernel stubs, symbolic threshold) and Position subset of Prefix/Size on shared symbolic tables', note='sizes in the size set; tables <= 2x2 with <= 3 tokens; 1e-9 guard band above the 1e-4 margin', ref='5/C14'),
  'C12': dict(tech='E2: inductive step (one call from either tokenizer mode leaves tokenizer and frames as found) + all ordered pairs of calls sharing objects, z3-decided paths over the pandas model; AST scan for module-level state', note='real pandas aliasing/CoW outside (replays compare real frames); histories > 2 calls by induction only', ref='5/C12'),
  'C15': dict(tech='E2: z3-decided paths over the matrix entry point x violated precondition (symbolic choice, symbolic out-of-range thresholds, symbolic missing flags) and over degenerate valid shapes, on the pandas model; exception type, tokenizer mode, no work done before rejection', note='dtypes are tags in the model; replays use real pandas dtypes', ref='5/C15'),
- 'C17': dict(tech='E2+E1: the real profile_table_for_join executed with symbolic row / distinct / missing counts as bit-vectors, float(count) exact, float(u)/float(n)*100 and round(.,2) on IEEE-double proxies (QF_BVFP); its branches are z3 decisions; oracle over all realisable counts up to 2^20 (2^21) rows', note='the counting itself (Series.unique, isnull) is pandas and outside; non-incremental z3 per check', ref='5/C17'),
+ 'C17': dict(tech='E2+E1: the real profile_table_for_join executed with symbolic row / distinct / missing counts as bit-vectors, float(count) exact, float(u)/float(n)*100 and round(.,2) on IEEE-double proxies (QF_BVFP); its branches are z3 decisions; oracle over all realisable counts up to 2^20 (2^21) rows; the column dtype kind is a symbolic choice (6 kinds)', note='the counting itself (Series.unique, isnull) is pandas and outside (counts are symbolic inputs); non-incremental z3 per check', ref='5/C17'),
 }
 
 NOT_APPLICABLE = [
